@@ -185,6 +185,127 @@ class Check:
             shutil.rmtree(os.path.join(wd, "md"), ignore_errors=True)
         return r
 
+    # ---------------------------------------------------------------- bulk (streaming) enumeration
+    def tlc_to_file(self, module, cfg, files=None, workers=None, timeout=3000, name=None, heap="8g"):
+        """Like tlc(), but TLC's output goes to a file (bulk emission of cases); returns (TLCResult of head+tail, path)."""
+        wd = tempfile.mkdtemp(prefix="tlc-", dir=self.scratch)
+        for fn in os.listdir(SPEC):
+            if fn.endswith((".tla", ".cfg")):
+                shutil.copy(os.path.join(SPEC, fn), wd)
+        for fn, content in (files or {}).items():
+            with open(os.path.join(wd, fn), "w") as f:
+                f.write(content)
+        outp = os.path.join(wd, "tlc.out")
+        cmd = ["timeout", str(timeout), "tlc", "-metadir", os.path.join(wd, "md"), "-config", cfg, "-workers", str(workers or NCPU), module]
+        env = dict(os.environ)
+        env["JAVA_TOOL_OPTIONS"] = (env.get("JAVA_TOOL_OPTIONS", "") + " -Xmx%s" % heap).strip()
+        t = time.time()
+        with open(outp, "w") as fo:
+            p = subprocess.run(cmd, cwd=wd, env=env, stdout=fo, stderr=subprocess.STDOUT)
+        tail = subprocess.run(["tail", "-n", "60", outp], capture_output=True, text=True).stdout
+        head = subprocess.run("grep -v '^\"' '%s' | head -n 200" % outp, shell=True, capture_output=True, text=True).stdout
+        r = TLCResult(head + "\n" + tail, p.returncode, time.time() - t)
+        self.cov["states"] += r.distinct
+        self.cov["transitions"] += r.generated
+        self.cov["tlc_runs"].append({"name": name or (module + ":" + cfg), "distinct": r.distinct, "generated": r.generated, "wall_s": round(r.wall, 2), "rc": p.returncode})
+        shutil.rmtree(os.path.join(wd, "md"), ignore_errors=True)
+        if p.returncode == 124:
+            raise FrameworkError("TLC timeout on %s %s" % (module, cfg))
+        if not r.ok:
+            raise FrameworkError("TLC failed on %s %s (rc=%d): %s\n%s" % (module, cfg, p.returncode, r.error, tail[-2000:]))
+        return r, outp
+
+    @staticmethod
+    def printed_lines(path):
+        """Generator over PrintT(ToJson(..)) lines of a TLC output file, un-escaped."""
+        with open(path) as f:
+            for line in f:
+                line = line.rstrip("\n")
+                if len(line) > 2 and line[0] == '"' and line[-1] == '"' and line[1] in "{[":
+                    yield line[1:-1].replace('\\"', '"').replace("\\\\", "\\")
+
+    def run_worker_stream(self, family, lines, keep, base=0, prefix="", parallel=None, binary=None, env=None, timeout=3000):
+        """Streaming variant of run_worker for very large case sets: `lines` is an iterator of JSON object texts
+        (without "sc"); ids base, base+1, ... are assigned.  Only events for which keep(ev) is true are retained.
+        Returns (kept events by sc, deaths by sc, lookup(sc) -> the case's JSON text, number of cases)."""
+        binary = binary or self.worker_bin
+        parallel = parallel or NCPU
+        wd = tempfile.mkdtemp(prefix="stream-", dir=self.scratch)
+        fins = [open(os.path.join(wd, "in%d" % k), "w") for k in range(parallel)]
+        n = 0
+        for l in lines:
+            fins[n % parallel].write('{"sc":%d,%s%s\n' % (base + n, prefix, l[1:]))
+            n += 1
+        for f in fins:
+            f.close()
+        wenv = dict(env or os.environ, VERIF_SEED=str(self.seed))
+        results, deaths = {}, {}
+
+        def run_chunk(k):
+            inp = os.path.join(wd, "in%d" % k)
+            skip = 0
+            while True:
+                outp = os.path.join(wd, "out%d" % k)
+                with open(inp) as fi, open(outp, "w") as fo, open(os.path.join(wd, "err%d" % k), "w") as fe:
+                    for _ in range(skip):
+                        fi.readline()
+                    pos = fi.tell()
+                    fi.seek(pos)
+                    try:
+                        p = subprocess.run([binary, family], stdin=fi, stdout=fo, stderr=fe, env=wenv, timeout=timeout)
+                        rc, to = p.returncode, False
+                    except subprocess.TimeoutExpired:
+                        rc, to = -1, True
+                done, cur, inflight = 0, None, None
+                with open(outp) as fo:
+                    for line in fo:
+                        if line.startswith('{"ev":"sc-end"'):
+                            done += 1
+                            cur = None
+                            continue
+                        if not line.startswith("{"):
+                            continue
+                        try:
+                            ev = json.loads(line)
+                        except Exception:
+                            continue
+                        if ev.get("ev") == "call-start":
+                            inflight, cur = ev, ev.get("sc")
+                            continue
+                        cur = ev.get("sc")
+                        if keep(ev):
+                            results.setdefault(ev.get("sc"), []).append(ev)
+                if rc == 0 and not to:
+                    return
+                err = open(os.path.join(wd, "err%d" % k)).read()[-2000:]
+                if rc == 3:
+                    raise FrameworkError("worker reported a harness error: " + err)
+                if rc == 2 and "panic:" in err:
+                    fr = re.search(r"goroutine \d+ \[running\]:\n(?:.*\n)?\t(\S+\.go):\d+", err)
+                    if fr and "/harness/cmd/worker/" in fr.group(1):
+                        raise FrameworkError("the worker itself panicked (harness defect, not a verdict): " + err[-1200:])
+                victim = cur if cur is not None else base + k + (skip + done) * parallel
+                kind = "timeout" if to else ("exit" if rc > 0 else "signal")
+                if kind == "exit" and rc == 97:
+                    kind = "timeout"
+                deaths[victim] = {"kind": kind, "code": rc, "stderr": err, "inflight": inflight}
+                skip += done + 1
+
+        with ThreadPoolExecutor(max_workers=parallel) as ex:
+            list(ex.map(run_chunk, range(parallel)))
+
+        def lookup(sc):
+            k = (sc - base) % parallel
+            idx = (sc - base) // parallel
+            with open(os.path.join(wd, "in%d" % k)) as f:
+                for i, line in enumerate(f):
+                    if i == idx:
+                        return line.rstrip("\n")
+            return None
+        for sc in list(results) + list(deaths):
+            self.prefix_of[(family, sc)] = [(sc, lookup(sc))]
+        return results, deaths, lookup, n
+
     def validate_traces(self, module, cfg, events, shards=None, timeout=1800, name=None):
         """Trace validation: TLC checks the recorded events (list of dict; scenarios are separated by
         `reset` events) against spec/<module>.tla in one pass.  The trace spec records every event
